@@ -1,2 +1,141 @@
-(* C06: statements only; theorems are added as the model of the anchored mechanism is proved *)
-From GGRS Require Import Base.
+(* C06 — a spectator replays exactly the host's confirmed input sequence (spectator half:
+   SpectatorSession, src/sessions/p2p_spectator_session.rs).  Statements only.
+
+   Setting of every theorem: an arbitrary sequence [ops] of
+     sp_HFrame evs   the Input events of the next frame 0, 1, 2, ... as the endpoint emits them
+                     (one per player handle, in handle order, each with the endpoint's
+                     peer_connect_status at that moment),
+     sp_HSync        Event::Synchronized,
+     sp_HAdvance     a call of advance_frame(),
+   run from SpectatorSession::new (sp_start num_players max_frames_behind catchup_speed).
+   Hypotheses: num_players >= 1; [sp_wf]: every frame delivers all num_players players and every
+   status list has num_players entries (UdpProtocol::on_input, Endpoint model); fewer than 2^31
+   frames (Frame = i32).  [sp_hist ops] is the host's timeline: the values of frame 0, 1, 2, ...
+   No bound on max_frames_behind / catchup_speed is needed for any of the statements. *)
+From GGRS Require Import Base Consts Spectator SpectatorProofs.
+Open Scope Z_scope.
+
+(* (a) the ring.  In every reachable state, for every frame f: inputs_at_frame f answers
+   PredictionThreshold iff f is newer than the last received frame, SpectatorTooFarBehind iff the
+   host is SPECTATOR_BUFFER_SIZE or more frames past f (the slot holds a newer frame), and
+   otherwise Ok with exactly the values received for frame f - never other inputs, never a panic. *)
+Theorem C06_ring : forall (n mfb cs : Z) (ops : list sp_hop) (t : sp_trace) (f : Z),
+  1 <= n -> sp_wf n ops -> sp_hlen (sp_hist ops) < 2 ^ 31 ->
+  sp_hrun (sp_start n mfb cs) ops = Ok t -> 0 <= f < 2 ^ 31 ->
+  let s := sp_t_state t in
+  let lst := sp_hlen (sp_hist ops) - 1 in
+  sp_last_recv_frame s = lst /\
+  (sp_inputs_at_frame s f = Ok (sp_Fail sp_PredictionThreshold) <-> lst < f) /\
+  (sp_inputs_at_frame s f = Ok (sp_Fail sp_SpectatorTooFarBehind) <-> f <= lst - SPECTATOR_BUFFER_SIZE) /\
+  (forall v, sp_inputs_at_frame s f = Ok (sp_Got v) ->
+     lst - SPECTATOR_BUFFER_SIZE < f <= lst /\ map fst v = nth (Z.to_nat f) (sp_hist ops) []) /\
+  (lst - SPECTATOR_BUFFER_SIZE < f <= lst -> exists v, sp_inputs_at_frame s f = Ok (sp_Got v)).
+Proof. exact sp_c06_ring. Qed.
+
+(* (b) order.  The run never panics; the concatenation of all AdvanceFrame requests ever returned
+   is frame 0, 1, 2, ... of the host's timeline (the k-th delivered request carries the values
+   received for frame k: no gap, repeat or reordering); current_frame = (number delivered) - 1
+   (so frames advanced inside a call that then fails would show up here: there are none);
+   and the spectator is never ahead of what it received. *)
+Theorem C06_order : forall (n mfb cs : Z) (ops : list sp_hop),
+  1 <= n -> sp_wf n ops -> sp_hlen (sp_hist ops) < 2 ^ 31 ->
+  exists t, sp_hrun (sp_start n mfb cs) ops = Ok t /\
+    let del := sp_delivered (sp_t_calls t) in
+    (forall k, (k < length del)%nat -> map fst (nth k del []) = nth k (sp_hist ops) []) /\
+    sp_current_frame (sp_t_state t) = sp_hlen del - 1 /\
+    sp_current_frame (sp_t_state t) <= sp_last_recv_frame (sp_t_state t) /\
+    sp_last_recv_frame (sp_t_state t) = sp_hlen (sp_hist ops) - 1.
+Proof. exact sp_c06_order. Qed.
+
+Theorem C06_no_panic : forall (n mfb cs : Z) (ops : list sp_hop),
+  1 <= n -> sp_wf n ops -> sp_hlen (sp_hist ops) < 2 ^ 31 ->
+  sp_hrun (sp_start n mfb cs) ops <> Panic.
+Proof. exact sp_c06_no_panic. Qed.
+
+(* (c) catch-up.  In every reachable state the next advance_frame call does not panic
+   (frames_behind_host's assert!(diff >= 0) holds); it delivers at most max(1, catchup_speed)
+   frames and at most max(1, frames behind); more than one only if more than max_frames_behind
+   frames are outstanding; exactly one while 1 <= behind <= max_frames_behind; an Err leaves the
+   session exactly as it was (no frame is consumed by a failing call), PredictionThreshold only
+   with nothing outstanding, SpectatorTooFarBehind only when more than SPECTATOR_BUFFER_SIZE
+   frames are outstanding. *)
+Theorem C06_catchup : forall (n mfb cs : Z) (ops : list sp_hop) (t : sp_trace),
+  1 <= n -> sp_wf n ops -> sp_hlen (sp_hist ops) < 2 ^ 31 ->
+  sp_hrun (sp_start n mfb cs) ops = Ok t ->
+  let s := sp_t_state t in
+  exists s' o, sp_advance s = Ok (s', o) /\
+    exists behind, sp_frames_behind s = Ok behind /\ 0 <= behind /\
+    match o with
+    | sp_Delivered l =>
+        sp_hlen l <= Z.max 1 cs /\ sp_hlen l <= Z.max 1 behind /\
+        (1 < sp_hlen l -> mfb < behind) /\
+        (behind <= mfb -> 1 <= behind -> sp_hlen l = 1) /\
+        s' = sp_set_current s (sp_current_frame s + sp_hlen l)
+    | sp_Failed e =>
+        s' = s /\
+        (e = sp_NotSynchronized <-> sp_running s = false) /\
+        (e = sp_PredictionThreshold -> behind = 0) /\
+        (e = sp_SpectatorTooFarBehind -> SPECTATOR_BUFFER_SIZE < behind)
+    end.
+Proof. exact sp_c06_catchup. Qed.
+
+(* (d) status.  The k-th request of a call carries one (value, status) per player, and the status
+   of player p is Disconnected iff the peer_connect_status copied by the LAST Input event before
+   the call says disconnected with last_frame < the frame being delivered, Confirmed otherwise
+   (sp_stat frame c = if c.disconnected && c.last_frame < frame then Disconnected else Confirmed). *)
+Theorem C06_status : forall (n mfb cs : Z) (ops : list sp_hop) (t : sp_trace) (s' : sp_state)
+    (l : list (list (Z * sp_istatus))) (k : nat) (p : Z),
+  1 <= n -> sp_wf n ops -> sp_hlen (sp_hist ops) < 2 ^ 31 ->
+  sp_hrun (sp_start n mfb cs) ops = Ok t ->
+  sp_advance (sp_t_state t) = Ok (s', sp_Delivered l) ->
+  (k < length l)%nat -> 0 <= p < n ->
+  let frame := sp_current_frame (sp_t_state t) + 1 + Z.of_nat k in
+  let host := sp_last_status (sp_default_status n) ops in
+  length (nth k l []) = Z.to_nat n /\ length host = Z.to_nat n /\
+  snd (nth (Z.to_nat p) (nth k l []) (0, sp_Confirmed)) = sp_stat frame (nth (Z.to_nat p) host sp_cs_default).
+Proof. exact sp_c06_status. Qed.
+
+(* side conditions on the generated constants the proofs use *)
+Theorem C06_consts : 0 < SPECTATOR_BUFFER_SIZE <= 2 ^ 31 /\ NORMAL_SPEED = 1.
+Proof. exact (conj (conj SZ_pos SZ_small) NS_one). Qed.
+
+(* non-vacuity: the hypotheses are satisfiable and the interesting branches are reached *)
+(* an overrun: two frames replayed, then 61 more frames arrive before the next call: frame 2 has
+   been overwritten by frame 62, the call reports SpectatorTooFarBehind and consumes nothing *)
+Example C06_overrun_demo :
+  sp_wf 2 sp_ex_overrun /\
+  sp_outcomes (sp_hrun (sp_start 2 10 3) sp_ex_overrun) =
+    [sp_Delivered [[(1, sp_Confirmed); (2, sp_Confirmed)]];
+     sp_Delivered [[(11, sp_Confirmed); (12, sp_Confirmed)]];
+     sp_Failed sp_SpectatorTooFarBehind] /\
+  sp_final_frame (sp_hrun (sp_start 2 10 3) sp_ex_overrun) = 1.
+Proof. exact sp_ex_overrun_ok. Qed.
+
+(* a catch-up run: 14 frames buffered, max_frames_behind = 10, catchup_speed = 3: 3, 3, then 1 *)
+Example C06_catchup_demo :
+  sp_wf 2 sp_ex_catchup /\
+  map (fun o => match o with sp_Delivered l => map (map fst) l | sp_Failed _ => [] end)
+      (sp_outcomes (sp_hrun (sp_start 2 10 3) sp_ex_catchup)) =
+    [ [[1; 2]; [11; 12]; [21; 22]]; [[31; 32]; [41; 42]; [51; 52]]; [[61; 62]] ] /\
+  sp_final_frame (sp_hrun (sp_start 2 10 3) sp_ex_catchup) = 6.
+Proof. exact sp_ex_catchup_ok. Qed.
+
+(* a player the host reports disconnected at frame 0: Confirmed for frame 0, Disconnected for 1 *)
+Example C06_status_demo :
+  sp_wf 2 sp_ex_disc /\
+  sp_outcomes (sp_hrun (sp_start 2 10 1) sp_ex_disc) =
+    [sp_Delivered [[(5, sp_Confirmed); (6, sp_Confirmed)]];
+     sp_Delivered [[(7, sp_Confirmed); (0, sp_Disconnected)]]].
+Proof. exact sp_ex_disc_ok. Qed.
+
+Check C06_order : forall (n mfb cs : Z) (ops : list sp_hop),
+  1 <= n -> sp_wf n ops -> sp_hlen (sp_hist ops) < 2 ^ 31 ->
+  exists t, sp_hrun (sp_start n mfb cs) ops = Ok t /\
+    let del := sp_delivered (sp_t_calls t) in
+    (forall k, (k < length del)%nat -> map fst (nth k del []) = nth k (sp_hist ops) []) /\
+    sp_current_frame (sp_t_state t) = sp_hlen del - 1 /\
+    sp_current_frame (sp_t_state t) <= sp_last_recv_frame (sp_t_state t) /\
+    sp_last_recv_frame (sp_t_state t) = sp_hlen (sp_hist ops) - 1.
+Check C06_no_panic : forall (n mfb cs : Z) (ops : list sp_hop),
+  1 <= n -> sp_wf n ops -> sp_hlen (sp_hist ops) < 2 ^ 31 ->
+  sp_hrun (sp_start n mfb cs) ops <> Panic.
